@@ -4,6 +4,7 @@
 //      position, one or two Add() calls, two consecutive Complete() rounds on the same queue, destructor.
 //  (b) the real CoinsViewOverlay (coins.cpp compiled with the tsan-ABI shim) fetching prevouts on a ThreadPool.
 #include <vx/sched.h>
+#include <vx/tsanaux.h>
 #include <checkqueue.h>
 #include <coins.h>
 #include <util/threadpool.h>
@@ -201,55 +202,6 @@ static std::string RunConfig(int workers, int fetchers, uint64_t& n_blocks)
 }
 } // namespace d
 
-// ------------------------------------------------------------------------------------------- (e) auxiliary TSan pass
-// Runs the second binary (aux/tsan_free.cpp: the same bodies, free-running under the real ThreadSanitizer runtime)
-// and turns race reports that involve the code under test into violations. Sampling of OS schedules: auxiliary, it
-// complements the sequentially consistent exhaustive search with the C++ memory model (wrong memory orders).
-static void RunTsanAux(const char* argv0, int reps, double budget_s)
-{
-    auto& E = vx::ev();
-    std::string dir = argv0;
-    size_t sl = dir.rfind('/');
-    dir = sl == std::string::npos ? "." : dir.substr(0, sl);
-    std::string bin = dir + "/aux_tsan";
-    if (access(bin.c_str(), X_OK) != 0) { E.assume("auxiliary TSan binary not built; race pass skipped"); return; }
-    std::string cmd = "TSAN_OPTIONS='halt_on_error=0 exitcode=0 report_signal_unsafe=0' timeout " + std::to_string((int)budget_s) + " " + bin + " " + std::to_string(reps) + " 2>&1";
-    FILE* f = popen(cmd.c_str(), "r");
-    if (!f) return;
-    char line[4096];
-    std::string report, summary;
-    int reports = 0, relevant = 0;
-    bool in_report = false;
-    auto flush = [&] {
-        if (report.empty()) return;
-        reports++;
-        static const char* names[] = {"CCheckQueue", "CoinsViewOverlay", "ThreadPool", "CCoinsViewCache", "InputToFetch"};
-        bool rel = false;
-        for (auto n : names) rel |= report.find(n) != std::string::npos;
-        if (rel) {
-            relevant++;
-            std::string head = report.substr(0, 1500);
-            vx::violation("C14e-tsan-data-race", "ThreadSanitizer (free-running auxiliary pass) reports a data race in the code under test: " + head.substr(0, 400), head);
-        }
-        report.clear();
-    };
-    while (fgets(line, sizeof line, f)) {
-        std::string l = line;
-        if (l.find("WARNING: ThreadSanitizer") != std::string::npos) { flush(); in_report = true; }
-        if (l.rfind("TSAN-FREE-RUN", 0) == 0) { flush(); in_report = false; summary = l; }
-        if (l.find("==================") != std::string::npos && in_report && !report.empty() && report.size() > 200) { /* end marker */ }
-        if (in_report) report += l;
-    }
-    flush();
-    pclose(f);
-    long runs = 0, bad = 0;
-    sscanf(summary.c_str(), "TSAN-FREE-RUN runs=%ld oracle_failures=%ld", &runs, &bad);
-    E.set("tsan_free_runs", (uint64_t)runs);
-    E.set("tsan_reports", (uint64_t)reports);
-    E.set("tsan_reports_in_code_under_test", (uint64_t)relevant);
-    if (bad) vx::violation("C14e-free-run-oracle", "free-running bodies: " + std::to_string(bad) + " oracle failures (verdict / fetched coin mismatch)", summary);
-    E.assume("auxiliary: free-running ThreadSanitizer pass over the same bodies samples OS schedules (" + std::to_string(runs) + " runs); it is not exhaustive and not the deciding step");
-}
 
 int main(int argc, char** argv)
 {
@@ -332,7 +284,7 @@ int main(int argc, char** argv)
         if (configs % 4 == 0) E.sample("CoinsViewOverlay " + c.str() + ": " + std::to_string(r.executions) + " schedules with <= " + std::to_string(o.max_preempt) + " preemptions");
         if (r.violations) break;
     }
-    if (vx::ctx().replay.empty() && (part.empty() || part == "e")) RunTsanAux(argv[0], big ? 40 : 3, big ? 300 : 60);
+    if (vx::ctx().replay.empty() && (part.empty() || part == "e")) vx::RunTsanAux(argv[0], big ? 40 : 3, big ? 300 : 60, {"CCheckQueue", "CoinsViewOverlay", "ThreadPool", "CCoinsViewCache", "InputToFetch"}, "C14e");
     E.states += total_points;       // scheduler states visited (choice points reached)
     E.transitions += total_points;  // every step between two choice points is executed by the real code
     E.traces_validated += total_exec;
